@@ -317,7 +317,7 @@ func (s *solver) readResult() satResult {
 
 // check decides satisfiability of (path frame ∧ extra). extra may be nil.
 // When wantModel is set and the answer is sat, the values of vars are read.
-func (s *solver) check(extra *Term, vars []*Term, wantModel bool) (satResult, model) {
+func (s *solver) check(extra *Term, vars []*Term, wantModel bool) (satResult, *model) {
 	start := time.Now()
 	defer func() {
 		d := time.Since(start)
@@ -349,7 +349,7 @@ func (s *solver) check(extra *Term, vars []*Term, wantModel bool) (satResult, mo
 	}
 	s.send("(check-sat)")
 	r := s.readResult()
-	var m model
+	var m *model
 	if r == resSat && wantModel {
 		m = s.getModel(vars)
 		if m == nil {
@@ -361,8 +361,8 @@ func (s *solver) check(extra *Term, vars []*Term, wantModel bool) (satResult, mo
 }
 
 // getModel reads the values of the given bit-vector/Bool variables.
-func (s *solver) getModel(vars []*Term) model {
-	m := make(model, len(vars))
+func (s *solver) getModel(vars []*Term) *model {
+	m := newModel()
 	var bv []*Term
 	for _, v := range vars {
 		if v.w != wStr {
@@ -388,10 +388,13 @@ func (s *solver) getModel(vars []*Term) model {
 			s.lastErr = txt
 			return nil
 		}
-		if !parseValues(txt, m) {
+		if !parseValues(txt, m.bv) {
 			s.lastErr = "cannot parse get-value answer: " + txt
 			return nil
 		}
+	}
+	if !s.strModel(vars, m) {
+		return nil
 	}
 	return m
 }
@@ -425,7 +428,7 @@ func (s *solver) readSexp() string {
 }
 
 // parseValues parses "((x #x01) (y true) ...)" into m.
-func parseValues(txt string, m model) bool {
+func parseValues(txt string, m map[string]uint64) bool {
 	toks := tokenize(txt)
 	// expect ( ( name value ) ... )
 	i := 0
@@ -539,7 +542,7 @@ func (s *solver) getValues(extra *Term, terms []*Term) (satResult, []uint64) {
 			}
 			s.send("(get-value (" + n + "))")
 			txt := s.readSexp()
-			m := model{}
+			m := map[string]uint64{}
 			if !parseValues(txt, m) {
 				s.lastErr = "cannot parse get-value answer: " + txt
 				r = resUnknown
@@ -552,4 +555,58 @@ func (s *solver) getValues(extra *Term, terms []*Term) (satResult, []uint64) {
 	}
 	s.send("(pop 1)")
 	return r, vals
+}
+
+// strModel reads the values of Str-sorted inputs: the solver's abstract value
+// of each input is compared with the abstract values of the interned
+// literals; an input equal to a literal gets that literal, any other gets a
+// fresh string (equal abstract values get equal fresh strings).
+func (s *solver) strModel(vars []*Term, m *model) bool {
+	var sv []*Term
+	for _, v := range vars {
+		if v.w == wStr {
+			sv = append(sv, v)
+		}
+	}
+	if len(sv) == 0 {
+		return true
+	}
+	var sb strings.Builder
+	sb.WriteString("(get-value (")
+	for _, v := range sv {
+		sb.WriteString(s.define(v))
+		sb.WriteByte(' ')
+	}
+	var lits []string
+	for lit, n := range s.strlits {
+		lits = append(lits, lit)
+		sb.WriteString(n)
+		sb.WriteByte(' ')
+	}
+	sb.WriteString("))")
+	s.send(sb.String())
+	txt := s.readSexp()
+	toks := tokenize(txt)
+	// ((name val) ...), val is a single token such as Str!val!0
+	vals := map[string]string{}
+	for i := 1; i+3 < len(toks); i += 4 {
+		if toks[i] != "(" || toks[i+3] != ")" {
+			s.lastErr = "cannot parse Str model: " + txt
+			return false
+		}
+		vals[toks[i+1]] = toks[i+2]
+	}
+	byAbs := map[string]string{}
+	for _, lit := range lits {
+		byAbs[vals[s.strlits[lit]]] = lit
+	}
+	for _, v := range sv {
+		abs := vals[v.name]
+		if lit, ok := byAbs[abs]; ok {
+			m.str[v.name] = lit
+		} else {
+			m.str[v.name] = "\x00fresh:" + abs
+		}
+	}
+	return true
 }
